@@ -664,7 +664,7 @@ theorem wf_parts (p : UParts) (h : wf p = true) :
       | none => true) = true ∧
     (match p.host with
       | .name h => !h.isEmpty && h.all isHostChar
-      | .v6 h => !h.isEmpty && h.all (fun c => isHex c || c.toNat = 58 || c.toNat = 46)) = true ∧
+      | .v6 h => !h.isEmpty && h.all (fun c => isHex c || c.toNat = 58 || c.toNat = 46) && h.contains 58) = true ∧
     (match p.port with | some n => decide (1 ≤ n ∧ n ≤ 65535) | none => true) = true ∧
     (match p.path with | [] => true | c :: cs => c.toNat = 47 && cs.all isUrlChar) = true ∧
     (match p.query with | some q => !q.isEmpty && q.all (fun c => isUrlChar c || c.toNat = 63) | none => true) = true ∧
@@ -713,7 +713,7 @@ theorem svPlain_srv (p : UParts) (h : wf p = true) : (svPlain p).all isSrv = tru
     simp only [List.cons_append, List.nil_append, List.all_cons, List.all_append, List.all_nil, Bool.and_true, Bool.and_eq_true,
       List.all_eq_true]
     refine ⟨by decide, fun c hc => ?_, by decide⟩
-    have := hh.2 c hc
+    have := hh.1.2 c hc
     exact isSrv_of_userinfo (v6_is_userinfo _ (toNat_lt256 c) (by simpa [isHex] using this))
 
 theorem credText_srv (c : Bytes × Bytes)
@@ -863,7 +863,7 @@ theorem hostLoop_hostpart (p : UParts) (h : wf p = true) (u : Url) (pos : Nat) (
     | cons v0 vs =>
       simp only [List.length_cons, List.length_append, List.length_nil, List.cons_append, List.nil_append] at hp
       have hv : ∀ c ∈ v0 :: vs, (isHexN c.toNat || c.toNat == 58 || c.toNat == 46) = true := by
-        intro c hc; simpa [isHex] using h3.2 c hc
+        intro c hc; simpa [isHex] using h3.1.2 c hc
       have := hostLoop_v6 v0 vs rest u pos (hv v0 (by simp)) (fun c hc => hv c (by simp [hc])) (by omega) hl
       simp only [List.cons_append, List.nil_append, List.append_assoc, List.length_cons, List.length_append, List.length_nil]
       rw [this]
